@@ -8,9 +8,12 @@ import (
 	"math/big"
 	"math/rand"
 	"reflect"
+	"sort"
 	"strconv"
 	"strings"
 	"sync"
+	"unicode"
+	"unicode/utf8"
 )
 
 func init() { register("C16", checkC16) }
@@ -49,6 +52,15 @@ type c16Vec struct {
 	Recv       *c05Val   `json:"recv"`
 	Args       []*c05Val `json:"args"`
 	Documented bool      `json:"documented"`
+	// casetab
+	Table    [][][]string `json:"table"`
+	Caseless [][]string   `json:"caseless"`
+	// pluckw
+	Target  string    `json:"target"`
+	WKey    []string  `json:"wkey"`
+	W       string    `json:"w"`
+	RecvObj []c16Pair `json:"recvobj"`
+	CopyObj []c16Pair `json:"copyobj"`
 }
 
 // c16Case is one program with the observation the contract fixes.
@@ -66,7 +78,10 @@ type c16Case struct {
 	Upper    []byte         `json:"upper,omitempty"`
 	Lower    []byte         `json:"lower,omitempty"`
 	NoCase   bool           `json:"nocase,omitempty"` // non-ASCII text: only length and "receiver unchanged" are compared
-	Nums     []float64      `json:"nums,omitempty"`   // num: floor, ceil, round, x
+	Exact    bool           `json:"exact,omitempty"`  // every character is ASCII or in the model's case table: upper/lower are compared byte for byte
+	Chars    []string       `json:"chars,omitempty"`  // strhom: the characters of S
+	CopyWant map[string]any `json:"copy_want,omitempty"`
+	Nums     []float64      `json:"nums,omitempty"` // num: floor, ceil, round, x
 	ObjWant  map[string]any `json:"obj_want,omitempty"`
 	ResWant  map[string]any `json:"res_want,omitempty"`
 	DevWant  map[string]any `json:"dev_want,omitempty"` // what pluck-proto-key predicts instead
@@ -310,19 +325,21 @@ func c16KeyArgs(keys []string) string {
 func checkC16(c *Ctx) {
 	c.Assume("split with an empty separator: the statement fixes only that the pieces concatenate to the receiver; that the pieces are the characters (the model's answer) is recorded, not required")
 	c.Assume("split where occurrences of the separator overlap (\"aaa\".split(\"aa\")): any decomposition with separator-free pieces that joins to the receiver is accepted")
-	c.Assume("case mapping of non-ASCII letters is outside the model (upper/lower are compared on ASCII text and on the model's alphabet a, B, comma, blank, U+00E9 where U+00E9 must stay unchanged only in the model's domain)")
+	c.Assume("case mapping: ASCII letters and the 18 non-ASCII characters of the model's table (simple case mappings of the Unicode Character Database: lower/upper pairs of 2, 3 and 4 bytes, a titlecase digraph, roman numerals, circled letters, U+0345) plus two caseless ones are compared byte for byte; for any other text only the law 'upper/lower of a text = upper/lower of its characters, one by one' is checked (case mapping is taken to be context-free; Greek sigma is kept out of generated text); ASCII letters inside any text are compared as before")
+	c.Assume("a write to a NESTED value reached through the plucked copy is not compared (pluck is a shallow copy)")
 	c.Assume("the sign of a zero result of floor/ceil/round/num is not compared (-0 equals 0)")
 	c.Assume("num() of a number, and every call outside the documented contract (other receiver kind, missing / extra / wrong-kind arguments): only 'a value or a runtime error, never a crash' is required")
 	c.Assume("json(): only absence of crashes (its output belongs to C04)")
 	c.Assume("object keys that name a prototype method (length, pluck) are a separate vector class; length() of an object that has its own key `length` is not exercised")
 	c.Assume("objects are compared structurally (printed form parsed), never by key order (C10); printed strings are escape-free by construction")
-	c.Assume("numeric strings: decimal grammar only; magnitudes within 1e-300..1e300")
+	c.Assume("numeric strings: decimal grammar only (Go's hex, inf/nan and underscore spellings are outside the model); magnitudes within 1e-300..1e300")
 	pool := c.Pool()
 
-	maxLen := 4
+	maxLen, caseLen := 4, 3
 	if c.Thorough() {
-		maxLen = 6
+		maxLen, caseLen = 6, 4
 	}
+	caseTab := map[string][2]string{} // the model's case table: character -> upper, lower (caseless characters map to themselves)
 	var cmu sync.Mutex
 	counts := map[string]int{}
 	count := func(k string) {
@@ -419,8 +436,49 @@ func checkC16(c *Ctx) {
 				fail("str-receiver", "the receiver changed")
 				return
 			}
+			if cs.Exact && (!bytes.Equal(up, cs.Upper) || !bytes.Equal(lo, cs.Lower)) {
+				fail("str-case", fmt.Sprintf("upper %q lower %q, expected %q and %q", up, lo, cs.Upper, cs.Lower))
+				return
+			}
 			if !cs.NoCase && (!bytes.Equal(c16Mask(up), c16Mask(cs.Upper)) || !bytes.Equal(c16Mask(lo), c16Mask(cs.Lower))) {
 				fail("str-case", fmt.Sprintf("upper %q lower %q", up, lo))
+				return
+			}
+		case "strhom":
+			n0 := rd.int()
+			up := rd.sized()
+			lo := rd.sized()
+			s2 := rd.sized()
+			var cu, cl []byte
+			for range cs.Chars {
+				cu = append(cu, rd.sized()...)
+				cl = append(cl, rd.sized()...)
+			}
+			if rd.bad || len(rd.b) != 0 {
+				fail("str-output", "unreadable output")
+				return
+			}
+			if n0 != len(cs.S) || !bytes.Equal(s2, cs.S) {
+				fail("str-length", "length() is not the number of bytes, or the receiver changed")
+				return
+			}
+			if !bytes.Equal(up, cu) || !bytes.Equal(lo, cl) {
+				fail("str-case-by-character", fmt.Sprintf("upper() of the text is %q, its characters mapped one by one give %q; lower(): %q and %q", up, cu, lo, cl))
+				return
+			}
+		case "pluckw":
+			p1, ok1 := c16ParseObj(rd.line())
+			o1, ok2 := c16ParseObj(rd.line())
+			if rd.bad || !ok1 || !ok2 || len(rd.b) != 0 {
+				fail("pluck-output", "unreadable output")
+				return
+			}
+			if !c16MapEq(o1, cs.ObjWant) {
+				fail("pluck-receiver", fmt.Sprintf("after the write the receiver is %s, expected %s", c16JSON(o1), c16JSON(cs.ObjWant)))
+				return
+			}
+			if !c16MapEq(p1, cs.CopyWant) {
+				fail("pluck-copy", fmt.Sprintf("after the write the plucked object is %s, expected %s", c16JSON(p1), c16JSON(cs.CopyWant)))
 				return
 			}
 		case "num":
@@ -534,9 +592,90 @@ func checkC16(c *Ctx) {
 			if v.Len != len(s) {
 				infra("C16: model length %d of %q", v.Len, s)
 			}
-			submit(c16Case{Fam: "str", S: s, Upper: symsToBytes(v.Upper), Lower: symsToBytes(v.Lower),
+			cs := c16Case{Fam: "str", S: s, Upper: symsToBytes(v.Upper), Lower: symsToBytes(v.Lower), Exact: true,
 				Desc: fmt.Sprintf("%q: length, upper, lower", s),
-				Prog: "BEGIN { s = " + c16Quote(s) + "; " + c16StrBody + " }"})
+				Prog: "BEGIN { s = " + c16Quote(s) + "; " + c16StrBody + " }"}
+			submit(cs)
+			cs.Desc += " (document field)"
+			cs.Prog, cs.Doc = "{ s = $.s; "+c16StrBody+" }", c16JSON(map[string]string{"s": string(s)})
+			submit(cs)
+		case "casetab":
+			for _, row := range v.Table {
+				if len(row) != 3 {
+					infra("C16: case table row %v", row)
+				}
+				c, u, l := string(symsToBytes(row[0])), string(symsToBytes(row[1])), string(symsToBytes(row[2]))
+				r, n := utf8.DecodeRuneInString(c)
+				// leaf facts of the specification against Go's Unicode tables (a disagreement is a mistake in the table)
+				if n != len(c) || r == utf8.RuneError || string(unicode.ToUpper(r)) != u || string(unicode.ToLower(r)) != l {
+					infra("C16: case table row % X -> % X, % X disagrees with the Unicode tables of the harness", c, u, l)
+				}
+				caseTab[c] = [2]string{u, l}
+			}
+			for _, cl := range v.Caseless {
+				c := string(symsToBytes(cl))
+				r, _ := utf8.DecodeRuneInString(c)
+				if unicode.ToUpper(r) != r || unicode.ToLower(r) != r {
+					infra("C16: % X is not caseless", c)
+				}
+				caseTab[c] = [2]string{c, c}
+			}
+		case "pluckw":
+			olit, owant := c16Pairs(v.Obj)
+			_, rwant := c16Pairs(v.RecvObj)
+			_, cwant := c16Pairs(v.CopyObj)
+			keys := make([]string, len(v.Keys))
+			for i, k := range v.Keys {
+				keys[i] = string(symsToBytes(k))
+			}
+			wkey := string(symsToBytes(v.WKey))
+			// harness-side sanity: the object that is not written is what it was
+			if (v.Target == "copy" && !c16MapEq(rwant, owant)) || len(cwant) > len(keys)+1 {
+				infra("C16: pluckw vector %s", raw)
+			}
+			for _, docMode := range []bool{false, true} {
+				recv, pre, doc := "o", "o = "+olit+"; ", ""
+				if docMode {
+					recv, pre, doc = "$.o", "", `{"o": `+c16JSON(owant)+`}`
+				}
+				obj := "p"
+				if v.Target == "recv" {
+					obj = recv
+				}
+				stmt := c16WriteStmt(obj+"."+wkey, v.W)
+				body := pre + "p = " + recv + ".pluck(" + c16KeyArgs(keys) + "); " + stmt + "; print p; print " + recv
+				cs := c16Case{Fam: "pluckw", ObjWant: rwant, CopyWant: cwant,
+					Desc: fmt.Sprintf("%s.pluck(%s), then `%s` (p the result, %s the receiver)", olit, c16KeyArgs(keys), stmt, recv)}
+				if docMode {
+					cs.Prog, cs.Doc = "{ "+body+" }", doc
+				} else {
+					cs.Prog = "BEGIN { " + body + " }"
+				}
+				submit(cs)
+			}
+		case "numbig":
+			var rv c05Val
+			if err := json.Unmarshal(v.Res, &rv); err != nil {
+				infra("C16: num() result: %v", err)
+			}
+			s := symsToBytes(v.S)
+			cs := c16Case{Fam: "numb", Desc: fmt.Sprintf("num(%q)", s),
+				Prog: "BEGIN { x = num(" + c16Quote(s) + "); print x; print x is number; print x is null }"}
+			pf, pok := c05ParseNum(s)
+			if rv.K == "null" {
+				cs.NumbNull = true
+			} else if rv.K == "dec" {
+				cs.NumbVal = c05Nearest(&rv)
+			} else {
+				infra("C16: num() result of kind %q", rv.K)
+			}
+			if pok == cs.NumbNull || (pok && pf != cs.NumbVal) {
+				infra("C16: the harness's numeric-string parser disagrees with the specification on %q: %v %v, spec %v", s, pf, pok, cs.NumbVal)
+			}
+			submit(cs)
+			cs.Desc += " (document field)"
+			cs.Prog, cs.Doc = "{ x = num($.s); print x; print x is number; print x is null }", c16JSON(map[string]string{"s": string(s)})
+			submit(cs)
 		case "num":
 			x := c05Concrete(v.X)
 			want := []float64{c05Nearest(v.Floor), c05Nearest(v.Ceil), c05Nearest(v.Round), x.F}
@@ -629,7 +768,7 @@ func checkC16(c *Ctx) {
 		}
 	}
 	res := c.TLC(TLCOpt{Module: "MC_Methods",
-		Cfg:     cfgText("INIT Init", "NEXT Next", fmt.Sprintf("CONSTANT MaxLen = %d", maxLen), "INVARIANT Laws", "INVARIANT Vec", "CHECK_DEADLOCK FALSE"),
+		Cfg:     cfgText("INIT Init", "NEXT Next", fmt.Sprintf("CONSTANTS MaxLen = %d CaseLen = %d", maxLen, caseLen), "INVARIANT Laws", "INVARIANT Vec", "CHECK_DEADLOCK FALSE"),
 		Workers: 8, Heap: "6g", OnVec: onVec})
 	if res.Vectors == 0 {
 		infra("C16: TLC emitted no vectors")
@@ -643,8 +782,88 @@ func checkC16(c *Ctx) {
 		n = 200000
 	}
 	rng := rand.New(rand.NewSource(c.Seed))
+	if len(caseTab) < 10 {
+		infra("C16: the model's case table did not arrive")
+	}
+	var tabChars []string
+	for ch := range caseTab {
+		tabChars = append(tabChars, ch)
+	}
+	sort.Strings(tabChars)
 	for i := 0; i < n; i++ {
-		switch rng.Intn(6) {
+		switch rng.Intn(11) {
+		case 6: // text over ASCII and the characters of the model's case table: upper/lower byte for byte
+			var sb strings.Builder
+			for k, m := 0, rng.Intn(10); k < m; k++ {
+				if rng.Intn(3) == 0 {
+					sb.WriteByte("abzAQZ09 _-"[rng.Intn(11)])
+				} else {
+					sb.WriteString(tabChars[rng.Intn(len(tabChars))])
+				}
+			}
+			str := sb.String()
+			up, ok1 := c16MapCase(str, caseTab, 0)
+			lo, ok2 := c16MapCase(str, caseTab, 1)
+			if !ok1 || !ok2 {
+				infra("C16: %q is not over the case table", str)
+			}
+			submit(c16Case{Fam: "str", S: []byte(str), Upper: up, Lower: lo, Exact: true, Seeded: true,
+				Desc: fmt.Sprintf("seeded: %q: length, upper, lower (model's case table)", str),
+				Prog: "{ s = $.s; " + c16StrBody + " }", Doc: c16JSON(map[string]string{"s": str})})
+		case 7, 8: // any text: upper/lower of the text are the characters' upper/lower, one by one
+			var chars []string
+			for k, m := 0, 1+rng.Intn(7); k < m; k++ {
+				chars = append(chars, c16RandChar(rng))
+			}
+			str := strings.Join(chars, "")
+			submit(c16Case{Fam: "strhom", S: []byte(str), Chars: chars, Seeded: true,
+				Desc: fmt.Sprintf("seeded: %q: upper/lower of the text against upper/lower of each of its characters", str),
+				Prog: "{ s = $.s; " + c16StrBody + "; for (c in $.cs) { u = c.upper(); l = c.lower(); print u.length(); print u; print l.length(); print l } }",
+				Doc:  c16JSON(map[string]any{"s": str, "cs": chars})})
+		case 9: // num() on digit strings of every length, around the powers of two and ten
+			str := c16RandBigNumeric(rng)
+			cs := c16Case{Fam: "numb", Seeded: true, Desc: fmt.Sprintf("seeded: num(%q)", str),
+				Prog: "{ x = num($.s); print x; print x is number; print x is null }", Doc: c16JSON(map[string]string{"s": str})}
+			f, ok := c05ParseNum([]byte(str))
+			if !ok || math.IsNaN(f) || math.IsInf(f, 0) {
+				infra("C16: %q is not a numeric string of the model", str)
+			}
+			cs.NumbVal = f
+			submit(cs)
+		case 10: // pluck, then one write through the copy or through the receiver
+			keyPool := []string{"a", "b", "k1", "n", "id"}
+			obj := map[string]any{}
+			for _, k := range keyPool {
+				if rng.Intn(3) > 0 {
+					obj[k] = c16RandScalar(rng)
+				}
+			}
+			keys := make([]string, 1+rng.Intn(3))
+			copyWant := map[string]any{}
+			for k := range keys {
+				keys[k] = keyPool[rng.Intn(len(keyPool))]
+				copyWant[keys[k]] = obj[keys[k]]
+			}
+			recvWant := map[string]any{}
+			for k, v := range obj {
+				recvWant[k] = v
+			}
+			wkey := keyPool[rng.Intn(len(keyPool))]
+			w := []string{"set", "add", "sub", "postinc", "preinc", "postdec", "predec"}[rng.Intn(7)]
+			target, tmap := "p", copyWant
+			if rng.Intn(2) == 0 {
+				target, tmap = "$.o", recvWant
+			}
+			nv, ok := c16Written(w, tmap[wkey])
+			if !ok {
+				continue
+			}
+			tmap[wkey] = nv
+			stmt := c16WriteStmt(target+"."+wkey, w)
+			submit(c16Case{Fam: "pluckw", ObjWant: recvWant, CopyWant: copyWant, Seeded: true,
+				Desc: fmt.Sprintf("seeded: %s.pluck(%s), then `%s`", c16JSON(obj), c16KeyArgs(keys), stmt),
+				Prog: "{ p = $.o.pluck(" + c16KeyArgs(keys) + "); " + stmt + "; print p; print $.o }",
+				Doc:  c16JSON(map[string]any{"o": obj})})
 		case 0, 1: // split
 			alpha := c16RandAlphabet(rng)
 			sep := c16RandText(rng, alpha, 0, 3)
@@ -734,13 +953,16 @@ func checkC16(c *Ctx) {
 	}
 
 	c.Set("exhaustive", true)
-	c.Set("rule", fmt.Sprintf("TLC enumerates every string of <= %d symbols over {a, B, comma, U+00E9, blank} (length/upper/lower) x every separator of <= 2 symbols and the empty one (split), "+
+	c.Set("rule", fmt.Sprintf("TLC enumerates every string of <= %d symbols over {a, B, comma, U+00E9, blank} x every separator of <= 2 symbols and the empty one (split), "+
+		"every string of <= %d characters over {a, B, 1, U+00E9, U+01C5, U+2177, U+24B6, U+0345, U+03C9, U+4E16, U+10428} (length/upper/lower byte for byte, literal and document), "+
 		"every k/4 with |k| <= 22 and +-2^53 (floor/ceil/round, as variable and as document field), every key set over {a,b,c} x every key list of length <= 3 (pluck, literal and document), "+
-		"key lists naming prototype methods, num() on 25 strings, and every method/builtin x 13 receivers x 14 argument lists outside the contract (no crash); "+
-		"plus seeded random cases checked against the laws; every case counts as non-trivial; distinct by program + document", maxLen))
+		"every key set x key list of length <= 2 x written object (copy / receiver) x written key x write (= += -= ++ -- prefix and postfix), both objects observed afterwards, "+
+		"key lists naming prototype methods, num() on 25 strings and on 60 digit strings of 1..23 digits (2^k and 10^k, each -1 / +0 / +1) x 45 numeric and 9 non-numeric decorations (signs, leading zeros, fractions, exponents), "+
+		"and every method/builtin x 13 receivers x 14 argument lists outside the contract (no crash); "+
+		"plus seeded random cases checked against the laws (incl. text over the case table, upper/lower character by character on arbitrary Unicode, num() on digit strings up to 30 places, pluck + one write); every case counts as non-trivial; distinct by program + document", maxLen, caseLen))
 	c.Set("checker_cmd", "tlc MC_Methods (INVARIANT Laws, Vec); replay through lang.EvalProgram in worker subprocesses")
 	c.Set("cases", counts)
-	c.Set("bounds", map[string]int{"MaxLen": maxLen, "seeded": n})
+	c.Set("bounds", map[string]int{"MaxLen": maxLen, "CaseLen": caseLen, "seeded": n})
 	c.Set("inconclusive_timeouts", inconclusive)
 }
 
@@ -802,4 +1024,137 @@ func c16RandScalar(rng *rand.Rand) any {
 		return []any{float64(rng.Intn(9)), "x"}
 	}
 	return float64(rng.Intn(1 << 30))
+}
+
+// c16WriteStmt: the statement of one write kind of JqValue.MemberWrites.
+func c16WriteStmt(ref, w string) string {
+	switch w {
+	case "set":
+		return ref + " = 99"
+	case "add":
+		return ref + " += 1"
+	case "sub":
+		return ref + " -= 1"
+	case "postinc":
+		return ref + "++"
+	case "preinc":
+		return "++" + ref
+	case "postdec":
+		return ref + "--"
+	case "predec":
+		return "--" + ref
+	}
+	infra("C16: write kind %q", w)
+	return ""
+}
+
+// c16Written: port of JqValue.WrittenVal on parsed JSON values (nil: null or no member).
+func c16Written(w string, old any) (any, bool) {
+	var g c05GV
+	switch o := old.(type) {
+	case nil:
+		g = c05GV{Kind: "null"}
+	case bool:
+		g = c05GV{Kind: "bool", B: o}
+	case float64:
+		g = c05GV{Kind: "num", F: o}
+	case string:
+		g = c05GV{Kind: "str", S: []byte(o)}
+	case []any:
+		g = c05GV{Kind: "arr", Len: len(o)}
+	default:
+		return nil, false
+	}
+	var out c05Out
+	switch w {
+	case "set":
+		return 99.0, true
+	case "add":
+		out = c05Bin("+", g, c05GV{Kind: "num", F: 1})
+	case "sub":
+		out = c05Bin("-", g, c05GV{Kind: "num", F: 1})
+	case "postinc", "preinc":
+		_, out = c05IncDec("++", true, g)
+	default:
+		_, out = c05IncDec("--", true, g)
+	}
+	if out.Err || out.Open {
+		return nil, false
+	}
+	if out.V.Kind == "str" {
+		if !c05SafeStr(out.V.S) {
+			return nil, false
+		}
+		return string(out.V.S), true
+	}
+	return out.V.F, true
+}
+
+// c16MapCase maps a text character by character with the model's case table
+// (col 0: upper, 1: lower); ok=false when a non-ASCII character is not listed.
+func c16MapCase(s string, tab map[string][2]string, col int) ([]byte, bool) {
+	var out []byte
+	ok := true
+	for _, r := range s {
+		ch := string(r)
+		switch {
+		case r < 0x80 && col == 0:
+			out = append(out, c16Upper([]byte(ch))...)
+		case r < 0x80:
+			out = append(out, c16Lower([]byte(ch))...)
+		default:
+			m, listed := tab[ch]
+			if !listed {
+				ok = false
+				out = append(out, ch...)
+			} else {
+				out = append(out, m[col]...)
+			}
+		}
+	}
+	return out, ok
+}
+
+// blocks with cased letters of every kind (and some without case); Greek sigma, whose lower
+// case form depends on its position in a word under the full Unicode rules, is left out
+var c16Blocks = [][2]rune{{0x20, 0x7e}, {0xa1, 0xff}, {0x100, 0x24f}, {0x250, 0x2af}, {0x345, 0x345}, {0x370, 0x3ff}, {0x400, 0x52f}, {0x531, 0x587},
+	{0x10a0, 0x10ff}, {0x13a0, 0x13ff}, {0x1c80, 0x1cbf}, {0x1e00, 0x1eff}, {0x1f00, 0x1fff}, {0x2150, 0x218f}, {0x2460, 0x24ff}, {0x2c00, 0x2cff},
+	{0xa640, 0xa69f}, {0xa720, 0xa7ff}, {0xab70, 0xabbf}, {0xff21, 0xff5a}, {0x10400, 0x1044f}, {0x104b0, 0x104ff}, {0x10c80, 0x10cff}, {0x118a0, 0x118df},
+	{0x16e40, 0x16e7f}, {0x1e900, 0x1e943}, {0x4e00, 0x4e40}, {0x1f600, 0x1f640}}
+
+func c16RandChar(rng *rand.Rand) string {
+	for {
+		b := c16Blocks[rng.Intn(len(c16Blocks))]
+		if rng.Intn(4) == 0 {
+			b = c16Blocks[0]
+		}
+		r := b[0] + rune(rng.Intn(int(b[1]-b[0])+1))
+		if r == 0x3a3 || r == 0x3c3 || r == 0x3c2 || !utf8.ValidRune(r) {
+			continue
+		}
+		return string(r)
+	}
+}
+
+// c16RandBigNumeric: a numeric string whose digits run up to 30 places: around 2^k and 10^k, or random.
+func c16RandBigNumeric(rng *rand.Rand) string {
+	var m *big.Int
+	switch rng.Intn(3) {
+	case 0:
+		m = new(big.Int).Lsh(big.NewInt(1), uint(rng.Intn(100)))
+	case 1:
+		m = new(big.Int).Exp(big.NewInt(10), big.NewInt(int64(rng.Intn(30))), nil)
+	default:
+		m, _ = new(big.Int).SetString("1"+c05RandDigits(rng, 0, 29), 10)
+		if rng.Intn(2) == 0 {
+			m.Sub(m, new(big.Int).Exp(big.NewInt(10), big.NewInt(int64(len(m.String())-1)), nil)) // a leading digit other than 1
+			m.Add(m, new(big.Int).Mul(big.NewInt(int64(1+rng.Intn(9))), new(big.Int).Exp(big.NewInt(10), big.NewInt(int64(len(m.String())-1)), nil)))
+		}
+	}
+	m.Add(m, big.NewInt(int64(rng.Intn(5)-2)))
+	if m.Sign() < 0 {
+		m.Neg(m)
+	}
+	str := []string{"", "", "", "-", "+", "0", "-00"}[rng.Intn(7)] + m.String()
+	return str + []string{"", "", "", ".", ".0", "e0", "e1", "E-1", ".5", "e+2", ".50e1", "e-20"}[rng.Intn(12)]
 }
